@@ -146,6 +146,10 @@ pub struct ThreadReport {
     pub panicked: Option<String>,
     pub blocked_on: Option<(String, Vec<ResId>)>,
     pub steps: u64,
+    /// kind of the last intercepted operation, and how many of the thread's last steps were of
+    /// that kind in a row
+    pub last_op: &'static str,
+    pub last_op_run: u64,
 }
 
 #[derive(Clone, Debug)]
@@ -165,6 +169,29 @@ pub struct Outcome {
 }
 
 impl Outcome {
+    /// the threads that took the most scheduling steps (who was spinning when a budget ran out)
+    pub fn budget_report(&self) -> String {
+        let mut t: Vec<&ThreadReport> = self.threads.iter().filter(|t| !t.finished).collect();
+        t.sort_by_key(|t| std::cmp::Reverse(t.steps));
+        let mut s = String::new();
+        for t in t.iter().take(5) {
+            s.push_str(&format!(
+                "  #{} {} (host {}): {} steps, last operation {} x{}{}\n",
+                t.id,
+                t.name,
+                t.host,
+                t.steps,
+                t.last_op,
+                t.last_op_run,
+                match &t.blocked_on {
+                    Some((w, _)) => format!(", now blocked in {}", w),
+                    None => ", runnable".to_string(),
+                }
+            ));
+        }
+        s
+    }
+
     pub fn deadlock_report(&self) -> String {
         let mut s = String::new();
         for t in &self.threads {
@@ -212,6 +239,8 @@ struct Slot {
     weight: u32,
     /// PCT priority (only read when `pct_depth > 0`)
     prio: u64,
+    last_op: &'static str,
+    last_op_run: u64,
     done_res: ResId,
     panicked: Option<String>,
 }
@@ -303,6 +332,12 @@ impl Core {
     fn step(&mut self, me: usize, kind: &'static str, res: ResId) {
         self.steps += 1;
         self.slots[me].steps += 1;
+        if self.slots[me].last_op == kind {
+            self.slots[me].last_op_run += 1;
+        } else {
+            self.slots[me].last_op = kind;
+            self.slots[me].last_op_run = 1;
+        }
         self.now += self.cfg.step_cost_ns;
         if self.cfg.pct_depth > 0 && self.pct_points.contains(&self.steps) {
             self.slots[me].prio = self.pct_low;
@@ -910,6 +945,8 @@ where
             stall,
             weight,
             prio,
+            last_op: "",
+            last_op_run: 0,
             done_res,
             panicked: None,
         });
@@ -976,6 +1013,8 @@ where
             stall: None,
             weight: 8,
             prio: 1_500_000,
+            last_op: "",
+            last_op_run: 0,
             done_res: 1,
             panicked: None,
         }],
@@ -1061,6 +1100,8 @@ where
                 _ => None,
             },
             steps: s.steps,
+            last_op: s.last_op,
+            last_op_run: s.last_op_run,
         })
         .collect();
 
